@@ -20,11 +20,18 @@ type monKey struct {
 	has  bool
 }
 
+// monSess is the monitor's ground truth of one session. It follows the PROPERTY, not the
+// implementation: a session is live while it has been created / used within the last TTL, and
+// expiry and reset are final - once a session has been left unused for more than one TTL (or was
+// reset) it grants nothing ever again, no matter how often its cookie is presented afterwards.
+// Presenting the cookie of a dead session is not a "use": it must not slide anything.
 type monSess struct {
-	r, w         int
-	lastSure     int64 // last instant the session was certainly created / refreshed
-	lastPossible int64 // last instant a request carried its cookie
-	deleted      bool
+	r, w          int
+	lastSure      int64 // last instant the session was certainly created / refreshed
+	lastPossible  int64 // last instant a request carried its cookie while the session may still have been live
+	deleted       bool  // reset through auth/reset (final)
+	expired       bool  // was left unused for more than one TTL (final)
+	presentedDead int   // how often the cookie has been presented since the session is dead
 }
 
 type mon struct {
@@ -35,6 +42,7 @@ type mon struct {
 	dev     bool
 	authSet bool
 	keys    map[string]monKey
+	oldKeys map[string]string // keys that were usable at some time: why they are not (removed / expired at t)
 	sess    map[int]*monSess
 	cfg     []string // views of the configured entries
 }
@@ -46,10 +54,21 @@ func (m *mon) add(i int, sig, what string) {
 	if lo < 0 {
 		lo = 0
 	}
-	// keep the state-setting lines of the case so that the replay is self-contained
+	// keep the state-setting lines of the case so that the replay is self-contained: everything that
+	// is not a request, requests that create a session, and earlier requests presenting the same
+	// cookie (a presentation may change what the next presentation of that cookie is granted)
+	cookieOf := func(l string) string {
+		if f := strings.Fields(l); len(f) == 13 && f[0] == "req" {
+			if _, v, ok := split2(f[11]); ok && v != "-" {
+				return v
+			}
+		}
+		return ""
+	}
+	ck := cookieOf(m.c.Lines[i])
 	var lines, outs []string
 	for j := 0; j < lo; j++ {
-		if !strings.HasPrefix(m.c.Lines[j], "req ") || strings.Contains(m.c.Lines[j], " T:") {
+		if !strings.HasPrefix(m.c.Lines[j], "req ") || strings.Contains(m.c.Lines[j], " T:") || (ck != "" && cookieOf(m.c.Lines[j]) == ck) {
 			lines = append(lines, m.c.Lines[j])
 			outs = append(outs, m.outs[j])
 		}
@@ -60,7 +79,7 @@ func (m *mon) add(i int, sig, what string) {
 }
 
 func monitor(c hxlib.Case, outs []string) []hxlib.Violation {
-	m := &mon{c: c, outs: outs, keys: map[string]monKey{}, sess: map[int]*monSess{}}
+	m := &mon{c: c, outs: outs, keys: map[string]monKey{}, oldKeys: map[string]string{}, sess: map[int]*monSess{}}
 	for i, l := range c.Lines {
 		m.step(i, l, outs[i])
 	}
@@ -82,6 +101,9 @@ func permWord(s string) (int, bool) {
 // importKeys: which configured entries are usable keys now (documented format
 // <key>?read=<perm>&write=<perm>[&expires=<RFC3339>]).
 func (m *mon) importKeys() {
+	for k := range m.keys {
+		m.oldKeys[k] = fmt.Sprintf("it was configured earlier, but at t=%d it is not a usable entry of the current value of core/apiKeys", m.now)
+	}
 	m.keys = map[string]monKey{}
 	for _, v := range m.cfg {
 		f := strings.Split(v, ":")
@@ -123,7 +145,7 @@ func (m *mon) step(i int, line, out string) {
 	}
 	if strings.HasPrefix(out, "PANIC") || strings.HasPrefix(out, "HANG") || strings.HasPrefix(out, "TCP-ERROR") {
 		kind := f[0]
-		if kind == "keys" || kind == "dev" || kind == "cfgchange" {
+		if kind == "keys" || kind == "dev" || kind == "cfgchange" || kind == "overlap" {
 			kind = "config-change"
 		}
 		m.add(i, "C12:crash-or-hang:"+kind, "the server crashed, hung or dropped the connection: "+out)
@@ -133,6 +155,21 @@ func (m *mon) step(i int, line, out string) {
 	case "keys":
 		m.cfg = m.cfg[:0]
 		for _, e := range f[1:] {
+			_, v, _ := split2(e)
+			m.cfg = append(m.cfg, v)
+		}
+		m.importKeys()
+	case "overlap":
+		// two configuration changes with overlapping imports; the answer is given at quiescence (both
+		// imports finished): the configured value is the second one, whatever the imports did
+		sep := len(f)
+		for j, x := range f {
+			if x == "//" {
+				sep = j
+			}
+		}
+		m.cfg = m.cfg[:0]
+		for _, e := range f[min(sep+1, len(f)):] {
 			_, v, _ := split2(e)
 			m.cfg = append(m.cfg, v)
 		}
@@ -279,35 +316,62 @@ func (m *mon) req(i int, f []string, out string) {
 		key, hasKey = basic, true
 	}
 	keyValid := false
+	keyNote := ""
 	if hasKey {
 		if k, ok := m.keys[key]; ok && (!k.has || m.now <= k.exp) {
 			sure = append(sure, tok{k.r, k.w})
 			keyValid = true
 			credClass = "key"
-		} else if credClass == "none" {
-			credClass = "bad-key:" + authzClass(authz)
+		} else {
+			if ok && k.has {
+				keyNote = fmt.Sprintf(" (the presented API key expired at t=%d, now t=%d)", k.exp, m.now)
+			} else if why, was := m.oldKeys[key]; was && !ok {
+				keyNote = " (about the presented API key: " + why + ")"
+			}
+			if credClass == "none" {
+				credClass = "bad-key:" + authzClass(authz)
+			}
 		}
 	} else if authz != "" && credClass == "none" {
 		credClass = "bad-key:other-scheme"
 	}
+	// Session liveness. The logical clock only ever lags real time (adv moves the stored expiry by
+	// exactly d, real time passes on top of it), so a session whose logical age since its last
+	// possible use exceeds the TTL is certainly expired - and stays expired: lastPossible is not
+	// moved by presentations of a dead session. The band on the live side (5 s) is the tolerance for
+	// real time that passed while the case ran; exactly TTL is left undecided (After vs. >=).
 	var cs *monSess
+	cookieNote := ""
 	if cView != "-" {
 		id, _ := strconv.Atoi(cView)
 		cs = m.sess[id]
-		if cs != nil && !cs.deleted {
-			switch {
-			case m.now-cs.lastSure <= sessionTTL-5:
-				sure = append(sure, tok{cs.r, cs.w})
-				if credClass == "none" || strings.HasPrefix(credClass, "bad-key") {
-					credClass = "cookie"
-				}
-			case m.now-cs.lastPossible <= sessionTTL+5:
-				maybe = append(maybe, tok{cs.r, cs.w})
-			}
+		if cs != nil && !cs.deleted && !cs.expired && m.now-cs.lastPossible > sessionTTL {
+			cs.expired = true
 		}
-		if cs == nil || cs.deleted || (m.now-cs.lastPossible > sessionTTL+5) {
+		bad := ""
+		switch {
+		case cs == nil:
+			bad = "bad-cookie"
+		case cs.deleted:
+			bad = "bad-cookie:logged-out"
+		case cs.expired:
+			bad = "bad-cookie:expired"
+		case m.now-cs.lastSure <= sessionTTL-5:
+			sure = append(sure, tok{cs.r, cs.w})
+			if credClass == "none" || strings.HasPrefix(credClass, "bad-key") {
+				credClass = "cookie"
+			}
+		default:
+			maybe = append(maybe, tok{cs.r, cs.w})
+		}
+		if bad != "" {
+			if cs != nil {
+				cs.presentedDead++
+				cookieNote = fmt.Sprintf(" (presentation #%d of the cookie of a session that is %s since it was last live at t=%d, now t=%d)",
+					cs.presentedDead, strings.TrimPrefix(bad, "bad-cookie:"), cs.lastPossible, m.now)
+			}
 			if credClass == "none" {
-				credClass = "bad-cookie"
+				credClass = bad
 			}
 		}
 	}
@@ -332,8 +396,8 @@ func (m *mon) req(i int, f []string, out string) {
 		w, _ := strconv.Atoi(af[2])
 		m.sess[id] = &monSess{r: r, w: w, lastSure: m.now, lastPossible: m.now}
 	}
-	if cs != nil {
-		cs.lastPossible = m.now
+	if cs != nil && !cs.deleted && !cs.expired {
+		cs.lastPossible = m.now // a live (or possibly live) session may have been refreshed by this request
 	}
 
 	if invoked {
@@ -375,9 +439,9 @@ func (m *mon) req(i int, f []string, out string) {
 			}
 			if !ok {
 				if len(sure) == 0 && len(maybe) == 0 {
-					m.add(i, "C12:bad-credential-granted:"+credClass, fmt.Sprintf("no valid credential was presented but the handler saw %d/%d", tr, tw))
+					m.add(i, "C12:bad-credential-granted:"+credClass, fmt.Sprintf("no valid credential was presented but the handler saw %d/%d%s%s", tr, tw, cookieNote, keyNote))
 				} else {
-					m.add(i, "C12:token-not-from-credential:"+credClass, fmt.Sprintf("the handler saw %d/%d, the presented credentials grant %v (maybe %v)", tr, tw, sure, maybe))
+					m.add(i, "C12:token-not-from-credential:"+credClass, fmt.Sprintf("the handler saw %d/%d, the presented credentials grant %v (maybe %v)%s%s", tr, tw, sure, maybe, cookieNote, keyNote))
 				}
 			}
 		} else if t != (tok{1, 1}) {
@@ -392,7 +456,7 @@ func (m *mon) req(i int, f []string, out string) {
 			}
 		}
 		// the session was certainly used if nothing else can explain the token
-		if cs != nil && !cs.deleted && t == (tok{cs.r, cs.w}) && !m.dev && !bridge && !keyValid && !(m.authSet && strings.HasPrefix(au, "T:")) {
+		if cs != nil && !cs.deleted && !cs.expired && t == (tok{cs.r, cs.w}) && !m.dev && !bridge && !keyValid && !(m.authSet && strings.HasPrefix(au, "T:")) {
 			cs.lastSure = m.now
 		}
 		return
